@@ -72,6 +72,11 @@ class Prov:
             return set()
         k = n.get('k')
         c = n.get('c', [])
+        # `x->pFunc()` / `x->mPimpl` with an explicit receiver that is not this object is the state of x, not of this
+        if k == 'Call' and n.get('fn') == 'pFunc' and n.get('mc') and c and not is_this_like(c[0]):
+            return self.origins(f, c[0], env, depth + 1)
+        if k == 'Member' and n.get('n') == 'mPimpl' and c and not is_this_like(c[0]):
+            return self.origins(f, c[0], env, depth + 1)
         if is_this_like(n) or k == 'This':
             return {'this'}
         if k == 'Ref':
